@@ -71,6 +71,28 @@ SETTINGS = {
         "observe": lambda o: hex(int(o["cfg:pika.stacks.small_size"], 0)),
         "consistent": lambda o: int(o["cfg:pika.stacks.small_size"], 0) == o["stack_small"],
     },
+    # the other stack size classes (single-setting points only: they do not take part in the pair grid)
+    "stack_medium": {
+        "values": {"env": "0x50000", "ini": "0x60000"}, "pairs": False,
+        "env": lambda v: {"PIKA_MEDIUM_STACK_SIZE": v}, "ini": lambda v: ["--pika:ini=pika.stacks.medium_size=" + v],
+        "default": "0x20000",
+        "observe": lambda o: hex(int(o["cfg:pika.stacks.medium_size"], 0)),
+        "consistent": lambda o: int(o["cfg:pika.stacks.medium_size"], 0) == o["stack_medium"],
+    },
+    "stack_large": {
+        "values": {"env": "0x300000", "ini": "0x400000"}, "pairs": False,
+        "env": lambda v: {"PIKA_LARGE_STACK_SIZE": v}, "ini": lambda v: ["--pika:ini=pika.stacks.large_size=" + v],
+        "default": "0x200000",
+        "observe": lambda o: hex(int(o["cfg:pika.stacks.large_size"], 0)),
+        "consistent": lambda o: int(o["cfg:pika.stacks.large_size"], 0) == o["stack_large"],
+    },
+    "stack_huge": {
+        "values": {"env": "0x3000000", "ini": "0x1000000"}, "pairs": False,
+        "env": lambda v: {"PIKA_HUGE_STACK_SIZE": v}, "ini": lambda v: ["--pika:ini=pika.stacks.huge_size=" + v],
+        "default": "0x2000000",
+        "observe": lambda o: hex(int(o["cfg:pika.stacks.huge_size"], 0)),
+        "consistent": lambda o: int(o["cfg:pika.stacks.huge_size"], 0) == o["stack_huge"],
+    },
     "mask": {
         "values": {"cmdline": "0xf0", "env": "0x3c"},
         "cmdline": lambda v: ["--pika:process-mask=" + v], "env": lambda v: {"PIKA_PROCESS_MASK": v},
@@ -150,7 +172,7 @@ def main():
             for sub in itertools.combinations(srcs, k):
                 points.append([(setting, src) for src in sub])
     # 2. pairs of settings with all source pairs (thorough: triples too)
-    names = list(SETTINGS)
+    names = [n for n in SETTINGS if SETTINGS[n].get("pairs", True)]
     for s1, s2 in itertools.combinations(names, 2):
         for a1 in SETTINGS[s1]["values"]:
             for a2 in SETTINGS[s2]["values"]:
@@ -181,7 +203,8 @@ def main():
         cases.append({"kind": "precedence", "point": [("threads", "env:" + kw)], "args": ["--pika:threads=3"], "env": {"PIKA_THREADS": kw}, "expected": exp_with({"3"})})
     # 3. invalid values / unknown options must stop start-up with an error
     for bad in (["--pika:threads=0"], ["--pika:threads=%d" % (NPU + 1)], ["--pika:threads=abc"], ["--pika:scheduler=nonsense"], ["--pika:bind=nonsense"],
-                ["--pika:foo=1"], ["--pika:process-mask=zz"], ["--pika:ini=pika.stacks.small_size=abc"]):
+                ["--pika:foo=1"], ["--pika:process-mask=zz"], ["--pika:ini=pika.stacks.small_size=abc"],
+                ["--pika:ini=pika.stacks.medium_size=abc"], ["--pika:ini=pika.stacks.large_size=abc"], ["--pika:ini=pika.stacks.huge_size=lots"]):
         cases.append({"kind": "invalid", "args": bad, "env": {}})
     for badenv in ({"PIKA_THREADS": "0"}, {"PIKA_THREADS": "abc"}, {"PIKA_SCHEDULER": "nonsense"}, {"PIKA_COMMANDLINE_OPTIONS": "--pika:foo=1"}):
         cases.append({"kind": "invalid", "args": [], "env": badenv})
@@ -219,7 +242,7 @@ def main():
                 if got not in c["expected"][setting]:
                     fail(idx, "precedence-" + setting, f"{setting}: the runtime uses {got!r}, precedence denotes {sorted(c['expected'][setting])}")
                 elif not s["consistent"](o):
-                    fail(idx, "not-in-effect-" + setting, f"{setting}: resolved value {got!r} is not what the running runtime uses ({ {k: o[k] for k in ('os_threads', 'scheduler', 'stack_small', 'worker_masks')} })")
+                    fail(idx, "not-in-effect-" + setting, f"{setting}: resolved value {got!r} is not what the running runtime uses ({ {k: o[k] for k in ('os_threads', 'scheduler', 'stack_small', 'stack_medium', 'stack_large', 'stack_huge', 'worker_masks')} })")
             states.add(json.dumps({k: sorted(v) for k, v in c["expected"].items()}, sort_keys=True))
         elif c["kind"] == "invalid":
             if o is not None or r["rc"] == 0:
